@@ -157,6 +157,14 @@ impl SingleQuery {
     }
 }
 
+///
+/// field names and aliases are used as table aliases of the sub queries: they are quoted
+/// because an identifier of the query language can be a keyword of the database engine or start with a digit
+///
+fn sql_alias(name: &str) -> String {
+    format!("\"{}\"", name)
+}
+
 pub fn get_entity_query(
     entity: &EntityQuery,
     prepared_query: &mut SingleQuery,
@@ -207,6 +215,7 @@ pub fn get_exists_query(
     let mut q = String::new();
     for field in &entity.fields {
         let field_name = &field.name();
+        let field_alias = &sql_alias(field_name);
         let field_short = &field.field.short_name;
         match &field.field_type {
             QueryFieldType::EntityArrayQuery(sub_entity, nullable) => {
@@ -217,7 +226,7 @@ pub fn get_exists_query(
                         sub_entity,
                         prepared_query,
                         parent_table,
-                        field_name,
+                        field_alias,
                         field_short,
                         t + 1,
                         false,
@@ -238,7 +247,7 @@ pub fn get_exists_query(
                             sub_entity,
                             prepared_query,
                             parent_table,
-                            &field.name(),
+                            field_alias,
                             &field.field.name,
                             t + 1,
                             true,
@@ -248,7 +257,7 @@ pub fn get_exists_query(
                             sub_entity,
                             prepared_query,
                             parent_table,
-                            field_name,
+                            field_alias,
                             field_short,
                             t + 1,
                             true,
@@ -596,7 +605,7 @@ fn get_fields(
                         field_entity,
                         prepared_query,
                         parent_table,
-                        &field.name(),
+                        &sql_alias(&field.name()),
                         &field.field.name,
                         t + 1,
                         true,
@@ -606,7 +615,7 @@ fn get_fields(
                         field_entity,
                         prepared_query,
                         parent_table,
-                        &field.name(),
+                        &sql_alias(&field.name()),
                         &field.field.short_name,
                         t + 1,
                         true,
@@ -624,7 +633,7 @@ fn get_fields(
                     field_entity,
                     prepared_query,
                     parent_table,
-                    &field.name(),
+                    &sql_alias(&field.name()),
                     &field.field.short_name,
                     t + 1,
                 );
